@@ -224,6 +224,7 @@ pub fn op_kind(op: &Op) -> &'static str {
             Inst::Disp { .. } => "inst.disp",
             Inst::Reg { .. } => "inst.reg",
         },
+        Op::Query(Query::Hist(..)) => "q.hist",
         Op::Reset => "reset",
         Op::Save => "save",
         Op::Restore => "restore",
@@ -231,7 +232,7 @@ pub fn op_kind(op: &Op) -> &'static str {
 }
 
 fn is_env(op: &Op) -> bool {
-    matches!(op, Op::Env(_) | Op::Inst(_) | Op::Reset | Op::Save | Op::Restore)
+    matches!(op, Op::Env(_) | Op::Inst(_) | Op::Reset | Op::Save | Op::Restore | Op::Query(_))
 }
 
 /// which token contract a tok.* op addressed
